@@ -786,13 +786,15 @@ fn run_case(gen: &str, index: u64, seed: u64, tier: Tier, rep: &mut Report) {
             return;
         }
         let mut rng = Rng::new(seed);
+        // (all chunkings up to this length, sampled chunkings beyond): small under Miri
+        let (all_a, n_a, all_b, n_b) = if tier == Tier::Lite { (4, 2, 4, 2) } else { (12, 4, 9, 6) };
         for payload in [&b""[..], b"\x00", b"\x04\x01\x02\x03\x07"] {
             let f = rf::frame(ty, payload);
-            check_string(&f, 12, 4, &mut rng, rep);
+            check_string(&f, all_a, n_a, &mut rng, rep);
             let mut s = rf::frame(rf::T_DATA, b"ab");
             s.extend(&f);
             s.extend(rf::frame(rf::T_DATA, b"c"));
-            check_string(&s, 9, 6, &mut rng, rep);
+            check_string(&s, all_b, n_b, &mut rng, rep);
             rep.count("small_type_strings");
         }
         return;
